@@ -211,4 +211,39 @@ theorem export_keeps_specials (d d' : Definition)
     simp only [exportDefinition] at h
     injection h with h; subst h; exact ⟨rfl, rfl, rfl⟩
 
+/-- After the F27 repair: a definition that `Kitoken::new` accepts has no NaN score, so the export of the
+    tokenizer built from it neither panics nor fails, whatever the iteration orders. -/
+theorem export_ok_of_init (d : Definition) (tk : Tokenizer Score) (h : Tokenizer.new d = .ok tk)
+    (pv : List (Id × Bytes) → List (Id × Bytes))
+    (pvs : List ((Id × Bytes) × UInt32) → List ((Id × Bytes) × UInt32)) (hpvs : ∀ l, (pvs l).Perm l) :
+    ∃ d', exportDefinition d pv pvs = .ok d' := by
+  obtain ⟨md, model, specials, config⟩ := d
+  cases model with
+  | bytePair vocab chars => exact ⟨_, rfl⟩
+  | wordPiece vocab maxw => exact ⟨_, rfl⟩
+  | unigram vocab scores =>
+    have hn : scores.any f32IsNaN = false := by
+      cases hany : scores.any f32IsNaN with
+      | false => rfl
+      | true =>
+        exfalso
+        have hme : mkEncoder ⟨md, .unigram vocab scores, specials, config⟩ = .error .invalidScores := by
+          simp [mkEncoder, hany]
+        unfold Tokenizer.new at h
+        rw [hme] at h
+        split at h <;> cases h
+    have hany : (pvs (vocab.zip scores)).any (fun e => f32IsNaN e.2) = false := by
+      rw [Bool.eq_false_iff]
+      intro hc
+      obtain ⟨e, he, hnan⟩ := List.any_eq_true.mp hc
+      have hz : e ∈ vocab.zip scores := (hpvs _).subset he
+      have hs : e.2 ∈ scores := by
+        obtain ⟨a, b⟩ := e
+        exact (List.of_mem_zip hz).2
+      have : scores.any f32IsNaN = true := List.any_eq_true.mpr ⟨e.2, hs, hnan⟩
+      rw [hn] at this
+      cases this
+    simp only [exportDefinition, exportUnigram, hany]
+    simp
+
 end Kitoken.Proofs.Codec
